@@ -352,6 +352,13 @@ def seed_prefix_chance(prop, tier, batch_seed, n_runs, run_seed, out_dir, exclud
             'prelude_runs': len(doc['runs']) - 1, 'seed_prefix': True}
 
 
+def _sweep_scratch(pid):
+    """Scratch roots of the simulated file system that a worker (killed when a sibling found a violation, or dead) left behind."""
+    import glob
+    for d in glob.glob(os.path.join(tempfile.gettempdir() if not os.path.isdir('/dev/shm') else '/dev/shm', 'simlab-%d-*' % pid)):
+        shutil.rmtree(d, ignore_errors=True)
+
+
 def run_jobs(jobs, ncpu, repo, wall_s, stop_on_violation=True):
     """jobs: list of (group, hashseed, args-dict).  Returns (results, errors)."""
     pending = list(jobs)
@@ -388,11 +395,13 @@ def run_jobs(jobs, ncpu, repo, wall_s, stop_on_violation=True):
                 if time.monotonic() > t_kill or stop:
                     p.kill()
                     p.wait()
+                    _sweep_scratch(p.pid)
                     if not stop:
                         errors.append('group %d exceeded the wall budget and was killed' % group)
                 else:
                     still.append((p, group, lpath))
                 continue
+            _sweep_scratch(p.pid)
             res = parse_result(lpath)
             if res is None:
                 with open(lpath) as f:
